@@ -52,7 +52,7 @@ class Prop(common.PropertyCheck):
                    'drop': [0, 0, 1][i % 3], 'blank': True, 'mef_form': 'float'}
         for _ in range(self.budget(2500, 40000)):
             yield {'k': 'struct', 'n': rng.randrange(3, 9), 'kind': rng.choice(['convex', 'convex', 'noisy', 'random', 'concave']), 'seed': rng.randrange(1 << 30)}
-        for bad in ('two', 'one', 'len', 'len1_mef', 'len1_rfi', 'scalar_mef', 'scalar_rfi'):
+        for bad in ('two', 'one', 'len', 'len1_mef', 'len1_rfi', 'scalar_mef', 'scalar_rfi', 'len_rfi_longer', 'len_rfi_longer_nan'):
             yield {'k': 'bad', 'what': bad}
 
     def run_impl(self, case):
@@ -62,6 +62,10 @@ class Prop(common.PropertyCheck):
                 try:
                     if case['what'] == 'two':
                         FlowCal.mef.fit_beads_autofluorescence(np.array([10., 100.]), np.array([500., 5000.]))
+                    elif case['what'] == 'len_rfi_longer':
+                        FlowCal.mef.fit_beads_autofluorescence(np.array([10., 30., 100., 300., 1000., 3000., 10000., 30000.]), np.array([500., 1500., 5000., 15000., 50000., 150000., 500000.]))
+                    elif case['what'] == 'len_rfi_longer_nan':
+                        FlowCal.mef.fit_beads_autofluorescence([10., 30., 100., 300., 1000.], [500., 1500., 5000., 15000.])
                     elif case['what'] == 'one':
                         FlowCal.mef.fit_beads_autofluorescence(np.array([10.]), np.array([500.]))
                     elif case['what'] == 'len1_mef':
